@@ -123,8 +123,13 @@ def judge_and_report(pid, mod, agg, tier, seed, wall):
         except OSError:
             pass
     lines = []
-    for sig, vs in sorted(known_hits.items()):
+    for ki, (sig, vs) in enumerate(sorted(known_hits.items())):
         lines.append("KNOWN-FINDING: property=%s %s [%s] (%d cases this run)" % (pid, open_f[sig].get("what", ""), sig, len(vs)))
+        rec = dict(vs[0])
+        rec["property"] = pid
+        rec["same_signature_cases"] = len(vs)
+        with open(os.path.join(rdir, "known_%03d.json" % (ki + 1)), "w") as f:
+            json.dump(rec, f, indent=1, default=repr)
     seen_sig = {}
     for v in fresh:
         seen_sig.setdefault(v.get("signature"), []).append(v)
